@@ -21,11 +21,11 @@
    items, any pattern of failed / timed-out writes, a crash at any point -- no two nodes hold overlapping pod
    CIDRs.
    And WITH node deletion (Hist2_proofs.v, invariant GInv): behind a well-behaved informer -- names used once,
-   deletions delivered in order as ordinary delete notifications, node work items taken from the queue -- no two
+   deletions delivered in order as ordinary delete notifications; node work items may be arbitrarily stale -- no two
    existing nodes ever overlap, nor does an existing node overlap one that is deleted but whose deletion the
    controller has not processed yet (its blocks stay reserved until then, and are handed out again only after).
    Residue (not a theorem; monitored on the implementation's traces): tombstones and relists, nodes marked
-   deleting, stale node work items combined with deletion, pre-set pod CIDRs, restarts: the world-level glue that a node's
+   deleting, pre-set pod CIDRs, restarts: the world-level glue that a node's
    reservation is released only through a deletion notification (or deleting sync) of that very node
    name, and that the CIDRs carried by such notifications are the node's own (assumption E7 about pod
    CIDRs pre-set by the environment; known findings K-TOMB, K-REPL are exactly failures of that glue
